@@ -91,6 +91,11 @@ def run(res, tier, seed, shard, nshards):
         for i, (total, msg) in enumerate(vols):
             if i % nshards == shard % max(1, min(nshards, len(vols))) and shard < len(vols):
                 volume_case(res, W, rng, total, msg)
+        # the client is busy with traffic of its own (half-way through sending a fragmented message, right after a ping or a data frame
+        # of its own): pings are answered all the same, and the client's own frames stay intact around the pongs
+        for i in range(40 if tier == "quick" else 1500):
+            if i % nshards == shard:
+                busy_client_case(res, W, rng)
         # pongs written through a dispatcher object (as on every WebSocketApp connection) over a transport that takes a few bytes
         # at a time
         for i in range(24 if tier == "quick" else 400):
@@ -157,6 +162,61 @@ def volume_case(res, W, rng, total, msg):
         extra = [(op, pl[:8]) for op, pl in got if (op, pl) not in exp][:3]
         res.violation("writes-mismatch", f"volume run ({sent} bytes in {k} messages of {msg} bytes, {len(pings)} pings): client wrote {len(got)} frames, expected exactly the "
                       f"{len(exp)} pongs; unexpected: {extra}", case, gen="volume")
+
+
+def busy_client_case(res, W, rng):
+    w, conn, peer = H.connected_ws(timeout=5)
+    mode = rng.choice(MODES)
+    before = len(peer.client_stream)
+    expected = []  # frames the client is expected to write, in order
+    case = {"gen": "busy-client", "mode": mode, "steps": []}
+    in_msg = False
+    try:
+        for step in range(rng.randrange(3, 9)):
+            act = rng.choice(["frag-start", "frag-cont", "frag-end", "own-ping", "own-text", "server-ping", "server-ping", "server-text"])
+            if act == "frag-start" and not in_msg:
+                b = rng.randbytes(rng.choice([0, 3, 200]))
+                w.send_frame(W.ABNF.create_frame(b, W.ABNF.OPCODE_BINARY, 0)); expected.append((R.BINARY, b, 0)); in_msg = True
+            elif act == "frag-cont" and in_msg:
+                b = rng.randbytes(rng.choice([0, 5]))
+                w.send_frame(W.ABNF.create_frame(b, W.ABNF.OPCODE_CONT, 0)); expected.append((R.CONT, b, 0))
+            elif act == "frag-end" and in_msg:
+                b = rng.randbytes(rng.choice([0, 5]))
+                w.send_frame(W.ABNF.create_frame(b, W.ABNF.OPCODE_CONT, 1)); expected.append((R.CONT, b, 1)); in_msg = False
+            elif act == "own-ping":
+                w.ping(b"mine"); expected.append((R.PING, b"mine", 1))
+            elif act == "own-text" and not in_msg:
+                w.send("own"); expected.append((R.TEXT, b"own", 1))
+            elif act == "server-ping":
+                p = rng.randbytes(rng.choice([0, 1, 17, 125]))
+                conn.deliver(R.encode(R.PING, p) + R.encode(R.TEXT, b"x"))
+                expected.append((R.PONG, p, 1))
+                name, cf = mode
+                # one message-level receive that gets past the ping to the text message
+                for _ in range(2):
+                    if name == "recv":
+                        w.recv(); break
+                    op, _d = (w.recv_data(cf) if name == "recv_data" else w.recv_data_frame(cf))
+                    if op == R.TEXT:
+                        break
+            elif act == "server-text":
+                conn.deliver(R.encode(R.TEXT, b"y"))
+                w.recv()
+            else:
+                continue
+            case["steps"].append(act)
+    except Exception as e:  # noqa
+        res.violation("legal-rejected", f"client busy with its own traffic {case['steps']} (mode {mode}): {type(e).__name__}: {e}", case, gen="busy-client")
+        return
+    frames, rest = R.decode_all(bytes(peer.client_stream[before:]))
+    res.case(("busy", tuple(case["steps"]), mode), nontrivial=True)
+    npings = sum(1 for e in expected if e[0] == R.PONG)
+    res.count("pongs_checked", npings)
+    res.count("pongs_amid_own_traffic", npings)
+    got = [(f.opcode, f.payload, f.fin) for f in frames]
+    if got != expected or rest != len(peer.client_stream) - before:
+        res.violation("writes-mismatch", f"client busy with its own traffic {case['steps']} (mode {mode}): wrote {[(o, len(p), f) for o, p, f in got]}, expected "
+                      f"{[(o, len(p), f) for o, p, f in expected]}", case, gen="busy-client")
 
 
 def shortwrite_pong_case(res, W, rng):
